@@ -60,6 +60,15 @@ def run(tier, seed):
                 p['sections'] = secs
                 apel.fix_real_plugins(p)
                 pels.append(p)
+            # designed: built-in JSON / text user data with non-ASCII characters (two-byte, three-byte, astral), always taken through the command-line routes
+            designed = set()
+            for js, txt in ((b'{"k\xc3\xa9": "v \xe2\x82\xac \xf0\x9f\x98\x80", "l": ["\xc3\xbc"]}', b'na\xc3\xafve caf\xc3\xa9\nsecond \xe2\x82\xac line'), (b'["\xc2\xb0C", {"m\xce\xa9": 1}]', b'\xc2\xb0C')):
+                p = apel.gen_pel(rng, max_sections=0)
+                p['ph']['creator'] = ord('O')
+                p['sections'] = [{'kind': 'ud', 'hdr': dict(apel.gen_hdr(rng), comp=0x2000, sub=1), 'payload': js},
+                                 {'kind': 'ed', 'hdr': dict(apel.gen_hdr(rng), comp=0x2000, sub=3), 'payload': txt, 'creator': ord('O'), 'resv1': 0, 'resv2': 0}]
+                pels.append(p)
+                designed.add(id(p))
             replies = lean_batch([env.tokens()] + ['pelspec %s %s x' % (apel.tok_cfg(), apel.tok_pel(p)) for p in pels])[1:]
             for p, r in zip(pels, replies):
                 data = r.bytes()
@@ -72,7 +81,7 @@ def run(tier, seed):
                 def _mod(sec):
                     cr = chr(sec.get('creator', p['ph']['creator'])).lower() if sec['kind'] == 'ed' else chr(p['ph']['creator']).lower()
                     return cr + '%04x' % sec['hdr']['comp']
-                compare(ck, p, data, real, model, spec, label='ud', allow_plugins=allow,
+                compare(ck, p, data, real, model, spec, label='ud', allow_plugins=allow, extra={'force_routes': id(p) in designed},
                         fixture_free=(not allow) or all(_mod(s) not in FIX for s in p['sections'] if s['kind'] in ('ud', 'ed')))
                 if real[0] != 'doc':
                     continue
